@@ -212,7 +212,6 @@ pub fn summary_findings(env: &Env, run: &RunSpec, results: &[(String, String, St
     let args: Vec<String> = argv(run).into_iter().filter(|a| a != "-r" && a != "json").collect();
     let argrefs: Vec<&str> = args.iter().map(|s| s.as_str()).collect();
     let p = ScrutCmd::new(&sb, &argrefs).run(env);
-    p.kill_group();
     let mut out = vec![];
     let mut buckets = vec![];
     if p.watchdog_fired {
